@@ -239,7 +239,7 @@ def sig_of(J, lp):
             out.append("E%s%s" % ((f["kind"][0] + f["body"][0]) if f else "d", "h" if rec[4] is not None else ""))
         elif t in ("Y", "R", "A"):
             out.append(t)
-        elif t in ("XS", "XH", "XC", "XD"):
+        elif t in ("XS", "XH", "XC", "XD", "YF", "EU", "MU"):
             out.append(t)
     return R.digest(out)
 
@@ -380,6 +380,8 @@ def execute(plan):
         probes["async generator yielded / awaited and completed"] = 1
     if any(rec[0] == "YF" for rec in J):
         probes["generator delegating with yield from"] = 1
+    if any(rec[0] == "EU" for rec in J):
+        probes["exception thrown into a generator / coroutine that had not started"] = 1
     if flaky:
         probes["function lookup hit by a transient fault (proxy in a caller's locals raised)"] = 1
     if any(rec[0] == "MU" for rec in J):
